@@ -373,7 +373,7 @@ pub fn run(ctx: &Ctx) {
     let full_limit = if ctx.quick() { 4 } else { 5 };
     // values: corpus of small shapes + hand-picked borrowed-heavy shapes
     let mut items: Vec<(Shape, Val)> = vec![];
-    for (s, vals) in value_corpus(2, 64, if ctx.quick() { 3 } else { 6 }) {
+    for (s, vals) in value_corpus(2, 64, if ctx.quick() { 6 } else { 10 }) {
         for v in vals {
             items.push((s.clone(), v));
         }
